@@ -21,34 +21,34 @@ Theorem evid_spec : forall d : dataset, guard_evid d = true -> map snd (evid_imp
 Proof. exact evid_spec_lemma. Qed.
 
 (* get_observations / get_number_of_observations / get_doses = the records the walk classifies as
-   observations / doses, in order — unless there is exactly one (squeeze; see obs_squeeze_refuted). *)
-Theorem obs_spec : forall d : dataset,
-  guard_obs_count d = true -> obs_impl d = Series (obs_walk (ds_sch d) (ds_rows d)).
+   observations / doses, in order — for every dataset (since fix 84913ce also with exactly one
+   observation / dose; Refuted.obs_single_fixed). *)
+Theorem obs_spec : forall d : dataset, obs_impl d = Series (obs_walk (ds_sch d) (ds_rows d)).
 Proof. exact obs_spec_lemma. Qed.
 
 Theorem nobs_spec : forall d : dataset,
-  guard_obs_count d = true -> nobs_impl d = Ok (Z.of_nat (length (obs_walk (ds_sch d) (ds_rows d)))).
+  nobs_impl d = Ok (Z.of_nat (length (obs_walk (ds_sch d) (ds_rows d)))).
 Proof. exact nobs_spec_lemma. Qed.
 
 Theorem doses_spec : forall d : dataset,
-  has_dose (ds_sch d) = true -> guard_dose_count d = true -> doses_impl d = Ok (Series (doses_walk (ds_rows d))).
+  has_dose (ds_sch d) = true -> doses_impl d = Ok (Series (doses_walk (ds_rows d))).
 Proof. exact doses_spec_lemma. Qed.
 
 (* get_number_of_observations_per_individual = the table of the counting walk (ascending ids that have
    an observation, with their counts) *)
-Theorem nobs_per_spec : forall d : dataset, guard_obs_count d = true -> nobs_per_impl d = Ok (nobs_per_walk d).
+Theorem nobs_per_spec : forall d : dataset, nobs_per_impl d = Ok (nobs_per_walk d).
 Proof. exact nobs_per_spec_lemma. Qed.
 
 (* list_time_varying_covariates (nunique > 1 in some id group) = some record differs from the first
-   record of its individual — whenever there is a covariate column (tvc_no_covariates_refuted) *)
-Theorem tvc_spec : forall (ncov : nat) (d : dataset), ncov <> O -> tvc_impl ncov d = Ok (tvc_walk ncov d).
+   record of its individual — for any number of covariate columns, none included (fix 81d9761) *)
+Theorem tvc_spec : forall (ncov : nat) (d : dataset), tvc_impl ncov d = Ok (tvc_walk ncov d).
 Proof. exact tvc_spec_lemma. Qed.
 
 (* get_admid (no admid column) = the admid implied by each record's compartment, carried forward from
    the latest dose event of the subject's block — when no record is a reset-and-dose event (EVID 4;
    admid_evid4_refuted) and EVID is what NM-TRAN would supply (guard_evid) *)
 Theorem admid_spec : forall (mi : minfo) (d : dataset) (cmt : list (Z * Z)) (ref : list Z),
-  has_admid (ds_sch d) = false -> id_named_ID (ds_sch d) = true ->
+  has_admid (ds_sch d) = false ->
   match ds_rows d with r0 :: _ => r_lab r0 = 0 | [] => False end ->
   guard_evid d = true -> forallb (fun v => negb (v =? 4)) (evid_walk d) = true ->
   cmt_impl mi d = Ok cmt -> admid_ref mi d = Ok ref ->
@@ -60,14 +60,14 @@ Theorem baselines_spec : forall d : dataset, baselines_impl d = baselines_walk [
 Proof. exact baselines_spec_lemma. Qed.
 
 (* get_doseid (cumsum of dose flags per individual, reset groups, the loop over the non-unique
-   (ID, TIME, reset group) keys with its index-label tests) computes exactly the dose periods of the
-   per-individual chronological walk, for every dataset (any number of individuals and records, ids
-   contiguous or not) that meets guard_doseid:
+   (ID, TIME, reset group) keys with its index-label and `DOSEID <= 1` tests) computes exactly the dose
+   periods of the per-individual chronological walk, for every dataset (any number of individuals and
+   records, ids contiguous or not, any name of the id column) that meets guard_doseid:
      input domain  — a dose column, AMT >= 0, default index 0..n-1, records chronological within a reset group;
-     code defects  — id column named 'ID' when there is an event column; no time value shared by two
-                     reset groups of an individual; no observation between two dose records of its own
-                     time point; no record at the time of its individual's first dose after that dose
-   (one _refuted theorem per code-defect conjunct in Refuted.v). *)
+     code defects  — no time value shared by two reset groups of an individual; no observation between
+                     two dose records of its own time point (one _refuted theorem each in Refuted.v).
+   The conjuncts g_id_named and g_no_tie_after_first_dose of the first version are gone with the fixes
+   f3d3785 and 0ec2f84: ties with an individual's first dose are covered by the theorem now. *)
 Theorem doseid_refines : forall d : dataset, guard_doseid d = true -> doseid_impl d = Ok (doseid_walk d).
 Proof. exact doseid_refines_lemma. Qed.
 
